@@ -30,6 +30,7 @@ POSITIONS = {
     "not-operand": lambda imp, name: "let %s_b = not ((%s).val == 0 - 1);\nlet %s = (%s).val;\n" % (name, imp, name, imp),
     "range-bound": lambda imp, name: "let %s_r = 0:((%s).val);\nlet %s = (%s).val;\n" % (name, imp, name, imp),
     "cast-operand": lambda imp, name: "let %s = int((%s).val);\n" % (name, imp),
+    "format-template-expression": lambda imp, name: "let %s = int(\"@{(%s).val + item.x}\" %% {x = 0});\n" % (name, imp.replace('"', '\\"')),
     "trace-operand": lambda imp, name: "let %s = (%s).val + 0;\n" % (name, imp),
 }
 
